@@ -207,3 +207,41 @@ func VH_C07_genbank_mutation_more() {
 	op := vChoice("op", 6)
 	vC07Mutation(op >= 2, op, s, 16)
 }
+
+//verif:harness prop=C07 quick=2 thorough=4 merge=concrete timeout=1500
+//verif:bounds indent edits: the LOCUS line of the small valid record keeps 1..11 of its 12 pad columns after the word LOCUS (so every field name becomes longer than, equal to, or shorter than the indent), combined with a symbolic byte flipped into the first column of the following field line; and field lines with 0..3 of their leading indent columns removed
+func VH_C07_genbank_indent() {
+	sh := vShard(2 + 2*vTier())
+	text := []byte(vSmallRecord(sh%2 == 0))
+	var in []byte
+	if sh < 2 {
+		keep := 1 + vChoice("keep", 11)
+		// "LOCUS" + 7 spaces + name: keep only `keep` of the 7 spaces
+		if keep > 7 {
+			keep = 7
+		}
+		in = append(append([]byte{}, text[:5+keep]...), text[12:]...)
+	} else {
+		// remove k leading columns of the ORGANISM continuation line / a qualifier line
+		k := 1 + vChoice("k", 3)
+		pos := bytes.Index(text, []byte("\n            t."))
+		if sh == 3 {
+			pos = bytes.Index(text, []byte("\n                     /"))
+		}
+		in = append(append([]byte{}, text[:pos+1]...), text[pos+1+k:]...)
+	}
+	c := vByte("c")
+	if vChoice("flip", 2) == 1 {
+		nl := bytes.IndexByte(in, '\n')
+		in[nl+1] = c
+	}
+	var err error
+	p := vPanics(func() { _, _, err = vScanAll(in, len(in)+1) })
+	vAssert("no-panic", !p)
+	if p {
+		return
+	}
+	vCover("indent-scanned")
+	_ = err
+	vObserve("len", len(in))
+}
